@@ -8,9 +8,9 @@ PROPS = {
         "engine": "dlist",
         "level": "exploration",
         "quick_runs": 250000,
-        "thorough_runs": 6000000,
+        "thorough_runs": 3000000,
         "quick_wall_cap": 240,
-        "thorough_wall_cap": 3000,
+        "thorough_wall_cap": 1800,
         "run_cfg": {"max_steps": 30, "run_timeout": 20},
         "rule": (
             "one evaluation = one seeded history of 3-30 DictList operations (28 kinds, per-run "
@@ -64,7 +64,7 @@ _HIST_ASSUME = [
 def _hist(pid, quick, thorough, text, note, ref, probes=(), max_steps=30):
     return {
         "engine": "hist", "level": "exploration", "quick_runs": quick, "thorough_runs": thorough,
-        "quick_wall_cap": 600, "thorough_wall_cap": 3300,
+        "quick_wall_cap": 600, "thorough_wall_cap": 1800,
         "run_cfg": {"max_steps": max_steps, "run_timeout": 60},
         "rule": _HIST_RULE.format(n=max_steps), "assumptions": _HIST_ASSUME, "components": _HIST_COMPONENTS,
         "probes": list(probes), "level_text": text, "design_ref": ref, "level_note": note,
@@ -73,27 +73,27 @@ def _hist(pid, quick, thorough, text, note, ref, probes=(), max_steps=30):
 
 
 PROPS["C01"] = _hist(
-    "C01", 20000, 600000,
+    "C01", 20000, 240000,
     "Seeded search over histories of public operations (incl. failing ones, contexts, copies, pickles, solver switches); "
     "after every step the raw GLPK problem is read back with swiglpk and must equal the flux-balance problem of the "
     "Python-side model plus the reference list of explicitly user-added rows/columns.",
     "Sampled histories on small generated networks; both GLPK interfaces; oracle independent of optlang's Python caches.",
     "4 (C01)", probes=["context_enter", "nested_context", "new_actor", "copy_inside_context"])
 PROPS["C02"] = _hist(
-    "C02", 20000, 600000,
+    "C02", 20000, 240000,
     "Every operation is also applied to an executable reference model written from the docstrings; content must be equal "
     "after every operation judged P, identity-level cross-reference invariants after every operation incl. failing ones.",
     "Sampled histories; operations whose documentation does not determine the result are judged by invariants only "
     "(counts of P/I judgements are in the evidence).", "4 (C02)")
 PROPS["C03"] = _hist(
-    "C03", 20000, 600000,
+    "C03", 20000, 240000,
     "Histories with nested `with model:` blocks (depth <= 4), failing operations and exception exits inside blocks; the full "
     "snapshot (content, cross-references, objective, raw LP) taken at __enter__ must equal the one after the matching __exit__, "
     "and __exit__ must not raise.",
     "Sampled histories; only operations the documentation calls reversible are executed inside blocks.", "4 (C03)",
     probes=["context_enter", "nested_context", "context_exit_checked", "exit_replays_10+_undo_entries"])
 PROPS["C04"] = _hist(
-    "C04", 16000, 500000,
+    "C04", 16000, 200000,
     "optimize()/slim_optimize() are observation operations inside edit histories (warm-started solver, both interfaces, copies, "
     "contexts): status, optimum, fluxes, duals and the status->return/exception mapping are judged against an exact rational LP "
     "(checked certificates) built from the reference model; every Solution ever returned is re-compared with its frozen copy after "
@@ -103,13 +103,13 @@ PROPS["C04"] = _hist(
     probes=["fba_truth_optimal", "fba_truth_infeasible", "fba_truth_unbounded", "fba_optimum_checked", "duals_checked",
             "slim_optimum_checked", "slim_error_value_checked", "solution_kept"])
 PROPS["C07"] = _hist(
-    "C07", 20000, 600000,
+    "C07", 20000, 200000,
     "Knock-out heavy histories (Gene.knock_out, knock_out_model_genes by object/id/index, Reaction.knock_out, functional flags, "
     "rule edits, contexts) judged against truth tables over the generator's own rule trees (never cobrapy's parser); 15 % of the quick "
     "and 50 % of the thorough runs drive *every* subset of the model's genes (<= 64), each in its own context and in a seeded order.",
     "Sampled histories; rules are random and/or trees of depth <= 3 over <= 6 shared genes.", "4 (C07)")
 PROPS["C10"] = _hist(
-    "C10", 9000, 250000,
+    "C10", 9000, 110000,
     "'Restart through SBML' is an operation inside edit histories: write (string, path, handle; with and without f_replace) under one "
     "global Configuration, validate the document with the SBML validator, discard the live model, read under another Configuration, "
     "compare with the projection of the reference (ids, stoichiometry, bounds, objective and direction, rule truth tables, compartments, "
@@ -120,7 +120,7 @@ PROPS["C10"] = _hist(
     probes=["restart_sbml", "restart_variant_string", "restart_variant_path", "restart_variant_handle", "restart_config_skew",
             "restart_fixpoint_checked"])
 PROPS["C11"] = _hist(
-    "C11", 10000, 300000,
+    "C11", 10000, 120000,
     "'Restart through a durable format' is an operation inside edit histories: save as JSON/YAML/dict/pickle (string, path or "
     "handle; sort on/off) under one global Configuration, discard the live model, load under another Configuration, compare with "
     "the projection of the reference, require a second round trip to be a fixpoint, and continue the history on the loaded model.",
@@ -129,7 +129,7 @@ PROPS["C11"] = _hist(
     probes=["restart_pickle", "restart_dict", "restart_json", "restart_yaml", "restart_variant_string", "restart_variant_path",
             "restart_variant_handle", "restart_config_skew", "restart_fixpoint_checked"])
 PROPS["C12"] = _hist(
-    "C12", 14000, 400000,
+    "C12", 14000, 170000,
     "Several live models (original, copy, deepcopy, unpickled) with interleaved histories: equality incl. raw LP at creation, "
     "distinct objects, and after every step the full snapshot of every model not operated on must be bit-identical to before.",
     "Sampled two/three-actor schedules; in-place edits of notes/annotation dictionaries are part of the operation set.", "4 (C12)",
@@ -153,7 +153,7 @@ _POOL_ASSUME = [
 def _pool(pid, level, quick, thorough, text, note, ref, probes=(), cfg=None, technique=None):
     return {
         "engine": "pool", "level": level, "quick_runs": quick, "thorough_runs": thorough,
-        "quick_wall_cap": 900, "thorough_wall_cap": 3300,
+        "quick_wall_cap": 900, "thorough_wall_cap": 1800,
         "run_cfg": dict({"run_timeout": 120, "max_fault_points": 40}, **(cfg or {})),
         "rule": ("one evaluation = one simulated run: a generated network (2-7 metabolites, 4-12 reactions, gene rules), optionally aged by "
                  "earlier optimisations and wrapped in a user context, then 1-3 analysis calls, each first with processes=1 and then as "
@@ -170,20 +170,20 @@ def _pool(pid, level, quick, thorough, text, note, ref, probes=(), cfg=None, tec
 _POOL_PROBES = ["pool_created", "worker_ran_2+_chunks", "completion_order_differs_from_submission", "stalled_worker",
                 "chunk_tail_shorter", "call_used_pool", "aged_parent", "windows_init_file_branch"]
 PROPS["C05"] = _pool(
-    "C05", "exploration", 3000, 90000,
+    "C05", "exploration", 3000, 36000,
     "FVA (plain, fraction_of_optimum, pfba_factor; reaction lists as objects/ids/subsets/permutations) on generated networks under "
     "processes=1 and under every simulated pool schedule, judged against exact rational min/max of each net flux; loopless ranges by "
     "inclusion invariants.",
     "Input dimension sampled by small generated networks; what the technique adds is the schedule/process-count dimension.", "4 (C05)",
     probes=_POOL_PROBES + ["fva_exact_checked", "blocked_exact_checked"])
 PROPS["C06"] = _pool(
-    "C06", "exploration", 4000, 120000,
+    "C06", "exploration", 4000, 48000,
     "Single/double gene/reaction deletions and essential-gene/reaction searches under processes=1 and simulated pool schedules; rows must be "
     "exactly the requested unordered combinations; growth/status judged against truth-table knock-out of the reference + exact LP.",
     "FBA method judged exactly; linear MOMA/ROOM only by bookkeeping (row set, statuses) in the C13/C14 workloads.", "4 (C06)",
     probes=_POOL_PROBES + ["deletion_exact_checked", "essential_exact_checked"])
 PROPS["C13"] = _pool(
-    "C13", "fault_enumeration", 300, 9000,
+    "C13", "fault_enumeration", 300, 3600,
     "For each sampled (model, analysis, arguments, serial|simulated-parallel, inside|outside a user context): one fault-free execution to "
     "learn the number K of solver calls, then one execution per (call index k <= K) x (verdict in infeasible, unbounded, undefined, "
     "time_limit, feasible) with exactly that solve's verdict overridden; the full model snapshot (content, list orders, objective, raw "
@@ -194,7 +194,7 @@ PROPS["C13"] = _pool(
     probes=_POOL_PROBES + ["unchanged_checked", "user_context_open", "user_context_still_intact", "compared_with_reference"],
     technique="deterministic simulation with fault enumeration: every solver call index x every verdict injected, snapshot oracle")
 PROPS["C14"] = _pool(
-    "C14", "exploration", 3500, 100000,
+    "C14", "exploration", 3500, 42000,
     "For each generated model: reference call with processes=1, then variants under the simulated pool (processes 2-16, chunk->worker "
     "assignment, durations incl. stalled workers, completion order, permuted item lists, Configuration().processes, platform branch, aged "
     "parent) and single-item calls; per item the values must agree with the reference, with the single-item call and with the exact oracle; "
@@ -203,8 +203,8 @@ PROPS["C14"] = _pool(
     probes=_POOL_PROBES + ["compared_with_reference", "single_item_checked", "fva_exact_checked", "deletion_exact_checked"])
 
 PROPS["C16"] = {
-    "engine": "samp", "level": "exploration", "quick_runs": 12000, "thorough_runs": 350000,
-    "quick_wall_cap": 900, "thorough_wall_cap": 3300, "run_cfg": {"run_timeout": 120},
+    "engine": "samp", "level": "exploration", "quick_runs": 12000, "thorough_runs": 150000,
+    "quick_wall_cap": 900, "thorough_wall_cap": 1800, "run_cfg": {"run_timeout": 120},
     "rule": ("one evaluation = one simulated sampler run: a generated feasible-ish network with finite bounds (homogeneous, forced, fixed or "
              "mixed fluxes, optional extra linear constraint), 1-3 sampler calls (ACHR / OptGP via objects or sample(); n, thinning, nproj, "
              "seed incl. None -> simulated clock, processes 1-4 through SimPool, reaction or solver-variable space), each seeded call repeated "
